@@ -23,7 +23,10 @@ import math
 import re
 import warnings
 
+import os
+
 import core
+import translate_np
 from core import GenError, CorrResult, Prop
 
 TOL_CLOSED = 1e-9
@@ -1458,16 +1461,81 @@ def run_oracle_jobs(jobs, workers=12):
         return [_oracle_job(j) for j in jobs]
 
 
+# ------------------------------------------------------------------------------------------------
+# the source itself: what harness/translate_np.py translates for this property (python ast -> Gallina, fail closed)
+
+SRC_MODULES = {
+    "classy_blocks.util.functions": "util/functions.py",
+    "classy_blocks.construct.point": "construct/point.py",
+    "classy_blocks.construct.array": "construct/array.py",
+}
+_F, _P, _A = list(SRC_MODULES)
+_POINT = {"position": "vec"}  # a Point is its attribute .position
+_ARRAY = {"points": "vec"}    # an Array is read ROW-WISE: .points stands for one row of the (N, 3) array (numpy broadcasting)
+# (module, class | None, function, {parameter: type}, attributes of self, result attribute, Gallina name); callees first
+SRC_ENTRIES = [
+    (_F, None, "norm", {"matrix": "vec"}, None, None, "src_norm"),
+    (_F, None, "unit_vector", {"vect": "vec"}, None, None, "src_unit_vector"),
+    (_F, None, "scale", {"point": "vec", "ratio": "real", "origin": "vec"}, None, None, "src_scale"),
+    (_F, None, "mirror_matrix", {"normal": "vec"}, None, None, "src_mirror_matrix"),
+    (_F, None, "mirror", {"point": "vec", "normal": "vec", "origin": "vec"}, None, None, "src_mirror"),
+    (_P, "Point", "translate", {"displacement": "vec"}, _POINT, "position", "src_Point_translate"),
+    (_P, "Point", "scale", {"ratio": "real", "origin": "vec"}, _POINT, "position", "src_Point_scale"),
+    (_P, "Point", "scale", {"ratio": "real", "origin": None}, _POINT, "position", "src_Point_scale_default"),
+    (_P, "Point", "mirror", {"normal": "vec", "origin": "vec"}, _POINT, "position", "src_Point_mirror"),
+    (_P, "Point", "mirror", {"normal": "vec", "origin": None}, _POINT, "position", "src_Point_mirror_default"),
+    (_A, "Array", "translate", {"displacement": "vec"}, _ARRAY, "points", "src_Array_translate"),
+    (_A, "Array", "scale", {"ratio": "real", "origin": "vec"}, _ARRAY, "points", "src_Array_scale"),
+    (_A, "Array", "scale", {"ratio": "real", "origin": None}, _ARRAY, "points", "src_Array_scale_default"),
+    (_A, "Array", "mirror", {"normal": "vec", "origin": "vec"}, _ARRAY, "points", "src_Array_mirror"),
+    (_A, "Array", "mirror", {"normal": "vec", "origin": None}, _ARRAY, "points", "src_Array_mirror_default"),
+]
+
+
+def translate_source():
+    """-> (text of Gen/C09/Source.v, the translator)"""
+    root = os.path.join(core.REPO, "src", "classy_blocks")
+    tr = translate_np.Translator({m: os.path.join(root, rel) for m, rel in SRC_MODULES.items()})
+    for (m, cls, f, sig, attrs, result, coq) in SRC_ENTRIES:
+        if cls is None:
+            got = tr.entry(m, f, sig, coq=coq)
+        else:
+            got = tr.entry_method(m, cls, f, sig, attrs=attrs, result=result, coq=coq)
+        if got != coq:
+            raise GenError("%s.%s was translated as %s, not as the entry %s" % (cls or m, f, got, coq))
+    text = tr.source_text("C09: " + ", ".join("%s.%s" % (cls or m.split(".")[-1], f) for (m, cls, f, _s, _a, _r, _c) in SRC_ENTRIES)
+                          + " of the working tree of /repo.")
+    return text, tr
+
+
 class C09(Prop):
     pid = "C09"
     title = "Transforming or copying an entity equals transforming its output geometry"
-    prebuilt = ["Base/Vec3.v", "Model/C09_Transform.v", "Proofs/C09_Leaves.v", "Proofs/C09_Commute.v", "Proofs/C09_Equivariance.v",
+    prebuilt = ["Base/Vec3.v", "Proofs/SourceEqTac.v", "Model/C09_Transform.v", "Proofs/C09_Leaves.v", "Proofs/C09_Commute.v", "Proofs/C09_Equivariance.v",
                 "Proofs/C09_Traverse.v", "Proofs/C09_Heap.v", "Proofs/C09_ArcLength.v", "Proofs/C09_Main.v", "Proofs/C09_Output.v"]
-    gen_dependent_files = ["Gen/C09/Tables.v"]
+    gen_dependent_files = ["Gen/C09/Tables.v", "Gen/C09/Source.v", "Proofs/C09_SourceEq.v"]
     property_files = ["Properties/C09.v"]
     trusted = [
+        "the numpy-vector AST translator harness/translate_np.py (functions.py: norm, unit_vector, scale, mirror_matrix, mirror; "
+        "point.py: Point.translate / scale / mirror; array.py: Array.translate / scale / mirror, each also for origin=None "
+        "-> Gen/C09/Source.v; Proofs/C09_SourceEq.v proves translated source = leaf_point / leaf_row of Model/C09_Transform.v for "
+        "all arguments on every run, theorem C09_source_is_model; mirror: for every non-zero normal = valid (TMirror n o)). Its "
+        "fragment: " + translate_np.FRAGMENT + ".  Its reading of python / numpy is what is trusted: floats as reals; unit_vector "
+        "of the zero normal (numpy: nan and a RuntimeWarning) as 'no value' (None); a Point is its .position; a method ending "
+        "with `return self` is read as the value of the declared attribute on return (self.position += d and self.position = e "
+        "re-bind it; aliasing of arrays is not modelled); an Array is read ROW-WISE (self.points = one row of the (N, 3) array; "
+        "numpy broadcasting applies + d, origin + (rows - origin) * ratio and np.dot(rows - origin, M.T) + origin to every row "
+        "independently); a 3 x 3 array literal is the triple of its rows, v.dot(M) / np.dot(v, M) the row vector times the "
+        "matrix, M.T the transpose; `origin is None` is decided by the declared kind of the argument (origin=None is a "
+        "specialisation of its own); run-time tie: the functions / methods the library calls are the parsed ones (file, first "
+        "line) and np / f / DTYPE are the objects assumed",
+        "hand-written leaf models of Model/C09_Transform.v: for translate / scale / mirror of Point and Array and functions.scale / "
+        "mirror_matrix / mirror no longer trusted (proved equal to the translated source); for rotate (Point.rotate, Array.rotate, "
+        "functions.rotate / rotation_matrix: scipy.linalg.expm, outside the translator's fragment) still tied by sampled, "
+        "kernel-decided numeric agreement only (interval, 1e-9)",
         "scipy.linalg.expm of a skew matrix is modelled by Rodrigues' formula (validated by the interval correspondence of every rotate leaf call)",
-        "numpy element-wise arithmetic modelled as real arithmetic (agreement checked to 1e-9 by `interval`)",
+        "numpy element-wise arithmetic modelled as real arithmetic (agreement checked to 1e-9 by `interval`; for the translated leaves "
+        "this now validates the translator's reading)",
         "heap-graph extraction: Point/Array/Angle/Operation are recognised by isinstance, every other ElementBase through `parts`; "
         "leaf calls are observed by wrapping Point.* and Array.* (writes that bypass these methods - CircleCurve.mirror's flip of `atop`, "
         "the row reversal of Spline.reverse, the scalar sides/widths scaled by SplineRound.scale - are invisible to the call log and "
@@ -1487,6 +1555,11 @@ class C09(Prop):
         graphs = tab_class_graphs(random.Random(12345))
         ctx.write_gen("Tables", emit_tables(over, writes, graphs))
         self._tables = (over, writes, graphs)
+        # the source itself: python -> Gallina (fail closed), proved equal to the leaf models by Proofs/C09_SourceEq.v
+        text, tr = translate_source()
+        tr.tie_to_runtime()
+        ctx.write_gen("Source", text)
+        ctx.log("S1: leaf code translated: %d definitions (%s)" % (len(tr.summary), ", ".join(d["coq"] for d in tr.summary)))
         known = {"Point", "Array", "Angle", "Operation", "CircleCurve", "SplineRound", "QuarterSplineRing", "Face", "Sketch",
                  "EighthSphere", "Hemisphere"}
         self._unknown_overrides = [c for c, ms in over if ms and c not in known]
@@ -1497,7 +1570,10 @@ class C09(Prop):
         T0 = time.time()
         res = CorrResult()
         rng = ctx.rng
-        res.rule = ("(U) entity of a catalogue class x 1-3 transformations with explicit non-zero origins x {method, list}: leaf-call log "
+        res.rule = ("[leaves translate / scale / mirror of Point and Array: the model is proved equal to the translated source for all "
+                    "arguments (Proofs/C09_SourceEq.v); the samples of (N) validate the translator's reading (floats as reals, "
+                    "row-wise Arrays) and remain the only tie of the rotate leaves] "
+                    "(U) entity of a catalogue class x 1-3 transformations with explicit non-zero origins x {method, list}: leaf-call log "
                     "(object, given/zero-origin/negation) and heap graph afterwards against Model.run_kinds, by vm_compute; "
                     "(N) sampled leaf calls: value after the call against the real-valued leaf model, by interval (1e-9); "
                     "non-trivial = at least one leaf call; distinct by (spec, transformation list, mode). "
